@@ -39,6 +39,68 @@ structure Ledger (w : World α) : Prop where
 def Holds (w : World α) (c : Nat) (xs : List (Val α)) : Prop :=
   xs.length = (w.hdr c).size ∧ ∀ i (h : i < xs.length), (w.mem (w.hdr c).data)[i]? = some (.obj xs[i])
 
+/-- live-block accounting of an operation on container `c` (the allocator-ledger side of C04): a heap block that
+    existed before the operation is live afterwards iff it was live and it is not a buffer that `c` moved away from;
+    a block created during the operation is live afterwards iff it is `c`'s buffer now.  So nothing allocated on behalf
+    of `c` outlives the operation except its buffer, and nothing that belongs to anybody else is released. -/
+structure LiveAcc (w w' : World α) (c : Nat) : Prop where
+  old   : ∀ b, b < w.next → (b ∈ w'.live ↔ b ∈ w.live ∧ (b = (w.hdr c).data → (w'.hdr c).data = b))
+  fresh : ∀ b, w.next ≤ b → (b ∈ w'.live ↔ b = (w'.hdr c).data)
+
+theorem VecOK.data_lt_next {cfg : Cfg} {w : World α} {c : Nat} (hv : VecOK cfg w c) (hl : Ledger w) : (w.hdr c).data < w.next := by
+  by_cases hne : (w.hdr c).data = (w.hdr c).inl
+  · rw [hne]; have := hv.inl_lt; have := hl.next_ok; omega
+  · exact (hl.live_ok _ (hv.heap hne).1).2.2
+
+/-- an operation that neither allocated nor released anything and left `c` in its buffer -/
+theorem LiveAcc.of_same {cfg : Cfg} {w w' : World α} {c : Nat} (hl : Ledger w) (hv : VecOK cfg w c) (hlive : w'.live = w.live)
+    (hdata : (w'.hdr c).data = (w.hdr c).data) : LiveAcc w w' c := by
+  refine ⟨fun b _ => ?_, fun b hb => ?_⟩
+  · rw [hlive]
+    exact ⟨fun h => ⟨h, fun hb => by rw [hdata, hb]⟩, fun h => h.1⟩
+  · rw [hlive]
+    constructor
+    · intro h; have := (hl.live_ok b h).2.2; omega
+    · intro h
+      have := hv.data_lt_next hl
+      rw [hdata] at h; omega
+
+theorem LiveAcc.trans {cfg : Cfg} {a b d : World α} {c : Nat} (hl : Ledger a) (hv : VecOK cfg a c)
+    (h1 : LiveAcc a b c) (h2 : LiveAcc b d c) (hn1 : a.next ≤ b.next)
+    (hinl : (b.hdr c).inl = (a.hdr c).inl)
+    (hd1 : (b.hdr c).data = (a.hdr c).data ∨ (b.hdr c).data = (a.hdr c).inl ∨ a.next ≤ (b.hdr c).data)
+    (hd2 : (d.hdr c).data = (b.hdr c).data ∨ (d.hdr c).data = (b.hdr c).inl ∨ b.next ≤ (d.hdr c).data) : LiveAcc a d c := by
+  have hi5 := hv.inl_lt
+  have hn5 := hl.next_ok.2
+  refine ⟨fun x hx => ?_, fun x hx => ?_⟩
+  · rw [h2.old x (by omega), h1.old x hx]
+    constructor
+    · rintro ⟨⟨hxa, h3⟩, h4⟩
+      refine ⟨hxa, fun hxd => ?_⟩
+      exact h4 (h3 hxd).symm
+    · rintro ⟨hxa, h3⟩
+      have hx5 := (hl.live_ok x hxa).1
+      refine ⟨⟨hxa, fun hxd => ?_⟩, fun hxb => ?_⟩
+      · have hdd := h3 hxd
+        rcases hd2 with h | h | h
+        · rw [← h]; exact hdd
+        · rw [hinl] at h; omega
+        · omega
+      · rcases hd1 with h | h | h
+        · exact h3 (by rw [hxb, h])
+        · omega
+        · omega
+  · by_cases hxb : x < b.next
+    · rw [h2.old x hxb, h1.fresh x hx]
+      constructor
+      · rintro ⟨h3, h4⟩; exact (h4 h3).symm
+      · intro h3
+        rcases hd2 with h | h | h
+        · exact ⟨by rw [h3, h], fun _ => h3.symm⟩
+        · rw [hinl] at h; omega
+        · omega
+    · exact h2.fresh x (by omega)
+
 /-- an operation on container `c`: the other headers, the blocks that are neither `c`'s buffers nor fresh, and their
     ownership are untouched -/
 structure Frame1 (w w' : World α) (c : Nat) : Prop where
@@ -49,11 +111,14 @@ structure Frame1 (w w' : World α) (c : Nat) : Prop where
   owner_old : ∀ b, b < w.next → w'.owner b = w.owner b
   next_mono : w.next ≤ w'.next
   data_new  : (w'.hdr c).data = (w.hdr c).data ∨ (w'.hdr c).data = (w.hdr c).inl ∨ w.next ≤ (w'.hdr c).data
+  live      : LiveAcc w w' c
 
-theorem Frame1.trans {a b d : World α} {c : Nat} (h1 : Frame1 a b c) (h2 : Frame1 b d c) : Frame1 a d c := by
+theorem Frame1.trans {cfg : Cfg} {a b d : World α} {c : Nat} (hl : Ledger a) (hv : VecOK cfg a c)
+    (h1 : Frame1 a b c) (h2 : Frame1 b d c) : Frame1 a d c := by
   refine ⟨fun x hx => (h2.hdr_other x hx).trans (h1.hdr_other x hx), h2.hdr_N.trans h1.hdr_N, h2.hdr_inl.trans h1.hdr_inl, ?_,
           fun x hx => (h2.owner_old x (Nat.lt_of_lt_of_le hx h1.next_mono)).trans (h1.owner_old x hx),
-          Nat.le_trans h1.next_mono h2.next_mono, ?_⟩
+          Nat.le_trans h1.next_mono h2.next_mono, ?_,
+          LiveAcc.trans hl hv h1.live h2.live h1.next_mono h1.hdr_inl h1.data_new h2.data_new⟩
   · intro x hx1 hx2 hx3 hx4
     rw [h2.mem_other x ?_ (by rw [h1.hdr_inl]; exact hx2) (Nat.lt_of_lt_of_le hx3 h1.next_mono) hx4]
     · exact h1.mem_other x hx1 hx2 hx3 hx4
